@@ -10,6 +10,8 @@ kinds of cases
             "again" (any kind) = observed again after a watchdog expiry, long watchdog only
   fam  : {id, kind, fam:{kind: long|esc|stmt, name, src, ds, n, digit, embed}}   (a case of C04.tla FamCases)
          -> long: render the literal (LONG_FORMS / LONG_EMBEDS), evaluate; esc / stmt: evaluate fam.src;
+            nest: evaluate fam.src under a count of the front end's host-level calls (run_counting); chain: render
+            fam.src + fam.digit * fam.n + fam.embed, evaluate;
             report outcome, line lengths and the kind of the returned value
 No expectation is computed here.
 """
@@ -215,9 +217,55 @@ def value_kind(v):
     return "obj"
 
 
+_fe_files = None
+
+
+def front_end_files():
+    """the engine's front end: lexer, parser, compiler and their data classes"""
+    global _fe_files
+    if _fe_files is None:
+        import os
+        import microjs
+        d = os.path.dirname(microjs.__file__)
+        _fe_files = frozenset(os.path.join(d, f) for f in ("lexer.py", "parser.py", "compiler.py", "ast_nodes.py", "tokens.py"))
+    return _fe_files
+
+
+def run_counting(api, fn, stop_at, cap=300_000):
+    """api.run with a count of the host-level calls (Python and C functions) made from the engine's front end; the count stops
+    the evaluation at stop_at (C04.tla NestCase: the bound of the case + 1), which is reported as the outcome 'hang'"""
+    import sys
+    files = front_end_files()
+    cnt = [0]
+
+    def prof(frame, event, arg):
+        if (event == "call" or event == "c_call") and frame.f_code.co_filename in files:
+            cnt[0] += 1
+            if cnt[0] >= stop_at:
+                sys.setprofile(None)
+                raise api.HarnessHang("front-end work")
+
+    def counted():
+        sys.setprofile(prof)
+        try:
+            return fn()
+        finally:
+            sys.setprofile(None)
+    out = api.run(counted, wall=40.0, cap=cap)
+    return out, cnt[0]
+
+
 def fam_case(case, api):
     fam = case["fam"]
-    if fam["kind"] == "long":
+    if fam["kind"] == "nest":
+        src = fam["src"]
+        out, fe = run_counting(api, lambda: api.Context(time_limit=5.0).eval(src), fam["ds"][0])
+        vk = value_kind(out.pop("pv")) if out["o"] == "value" else ""
+        return {"id": case["id"], "out": outcome_record(out), "lens": line_lengths(src), "vk": vk, "srclen": len(src), "fe": fe}
+    if fam["kind"] == "chain":
+        src = fam["src"] + fam["digit"] * fam["n"] + fam["embed"]
+        tl = 5.0
+    elif fam["kind"] == "long":
         src = LONG_EMBEDS[fam["embed"]] % LONG_FORMS[fam["name"]](fam["n"], LONG_DIGITS[fam["digit"]])
         tl = 5.0
     elif fam["kind"] == "lt":
